@@ -888,6 +888,9 @@ def functions(flags=None, want_gen=None):
                 g = f"g_{counters['g']}"
                 pool = [v for v in bound if v in LOCALS]
                 cap = draw(st.sampled_from(sorted(pool))) if pool and draw(st.booleans()) else None
+                if closure and draw(st.integers(0, 3)) == 0:
+                    # the outer function's variable only passes *through* f to the inner def
+                    cap = "cl"
                 bound.add(g)
                 return [("def", g, cap)]
             if k == "class":
@@ -1065,7 +1068,7 @@ def functions(flags=None, want_gen=None):
         for s_ in walk_stmts(body):
             if s_[0] == "del" and s_[1] not in bn:
                 ghosts.add(s_[1])
-            if s_[0] == "def" and s_[2] and s_[2] not in bn:
+            if s_[0] == "def" and s_[2] and s_[2] not in bn and s_[2] != "cl":
                 ghosts.add(s_[2])
         if ghosts:
             fn["body"] = [("if", ("int", 0), [("assign", [("n", g)], ("int", 0)) for g in sorted(ghosts)], [])] + body
